@@ -172,7 +172,7 @@ def registration(ctx) -> None:
         fn = prog.func(f'{cols.ref}.{mname}')
         var = [p for p in fn.param_names if p != 'self'][0]
         for m in members:
-            names = {m, 'features'} if m == 'selection' else {m}
+            names = {'features'} if m == 'selection' else {m}  # the *effective* selection: an empty select list means every source feature
             covered = any(_accepts(fn.node, var, n) for n in names)
             ctx.check(covered, 'R-SIBLING', fn, f'_Columns.{mname} visits `{var}.{m}` (an accept(self) on the member or on each of its items) like the parser registers it', fn.node, key=f'{mname}:{m}')
             # visited whenever present: an accept() of the member may only be guarded by its own positive None-test
@@ -396,29 +396,38 @@ def logical_factors(ctx) -> None:
             text = core.src(rets[0].value)
             uses_or = '|' in text and '&' not in text.split('Factors(')[0]
             ctx.check(uses_or, 'C14.factors', fn, f'{cname}.factors combines two-sided factors with OR', rets[0], key=f'{cname}:op')
-    # Not / Comparison: itself under the single-origin test, or nothing
+    # Not / Comparison: itself under the *exactly one origin* test, or nothing (a predicate over no column at all - a
+    # constant comparison - is not a factor of any table: Factors(predicate) would refuse it and parsing would fail)
     for cname in ('Not', 'Comparison'):
         fn = prog.func(f'{SERIES}:{cname}.factors')
+        subject = 'self'
         rets = [s for s in core.walk_local(fn.node) if isinstance(s, ast.Return)]
+        # a shared helper of Predicate.Factors may carry the decision: follow it (one level)
+        if len(rets) == 1 and isinstance(rets[0].value, ast.Call) and isinstance(rets[0].value.func, ast.Attribute) and core.src(rets[0].value.func.value).endswith('Factors') and [core.src(a) for a in rets[0].value.args] == ['self']:
+            href = f'{SERIES}:Predicate.Factors.{rets[0].value.func.attr}'
+            if prog.has_func(href):
+                fn = prog.func(href)
+                subject = [p for p in fn.param_names if p not in ('cls', 'self')][0]
+                rets = [s for s in core.walk_local(fn.node) if isinstance(s, ast.Return)]
         good = bool(rets)
         for r in rets:
             alts = casesplit.fold_ifexp(r.value, lambda t: None)
             for alt in alts:
                 t = core.src(alt)
-                if t.endswith('Factors()'):
+                if t.endswith('Factors()') or t == 'cls()':
                     continue
-                if t.endswith('Factors(self)'):
-                    # must be guarded by the single-origin test
-                    gs = [core.src(g) for g, pol in cfg.guards(alt, fn.node) if pol]
-                    single = any('origin' in g and 'len(' in g and '== 1' in g for g in gs)
+                if t.endswith(f'Factors({subject})') or t == f'cls({subject})':
+                    gs = cfg.cguards(alt, fn.node)
+                    want = f'len({{f.origin for f in Element.dissect({subject})}}) == 1'
+                    single = len(gs) == 1 and gs[0][1] and gs[0][0].replace(' ', '') in (want.replace(' ', ''), f'1==len({{f.origin for f in Element.dissect({subject})}})'.replace(' ', ''))
                     if not single:
                         good = False
-                        ctx.fail('C14.factors', fn, f'{cname}.factors offers itself without the single-origin test', r, key=f'{cname}:unguarded')
+                        ctx.fail('C14.factors', fn, f'{cname}.factors offers the predicate itself under {gs}: it is a factor exactly when it constrains exactly one origin (`{want}`)', r, key=f'{cname}:unguarded')
                     continue
                 good = False
                 ctx.fail('C14.factors', fn, f'{cname}.factors returns `{t}`: only the predicate itself (under the single-origin test) or no factor is sound' + (' - the operand factors are un-negated' if cname == 'Not' else ''), r, key=f'{cname}:forward')
         if good:
-            ctx.ok('C14.factors', fn, f'{cname}.factors is itself-or-nothing under the single-origin test', fn.node)
+            ctx.ok('C14.factors', fn, f'{cname}.factors is itself-or-nothing under the exactly-one-origin test', fn.node)
 
 
 def _reads_join_kind(prog, resolver, fn: core.FuncInfo, expr: ast.AST, depth: int) -> bool:
@@ -580,6 +589,8 @@ def run(ctx) -> None:
     ])
     ctx.floor('R-ELEMENT', n, 3)
     merge_case_split(ctx)
+    nrep = shared.r_repreq(ctx, list(prog.functions([m for m in prog.modules if m.startswith(('forml.io.dsl', 'forml.provider.feed'))])))
+    ctx.floor('R-REPREQ.functions', nrep, 300)
     logical_factors(ctx)
     kind_guards(ctx)
     mods = [m for m in prog.modules if m.startswith((PARSER, LAZY, 'forml.io.dsl._struct.series'))]
